@@ -30,6 +30,8 @@ def coq_op(o):
         return "(OSubscribe %s)" % zll(o[1])
     if n == "unsubscribe":
         return "(OUnsubscribe %s)" % zll(o[1])
+    if n == "subaddress":
+        return "(OSubscribe %s)" % zll(o[1])     # subscribing to an address = subscribing to each of its key hashes
     if n == "subcontracts":
         return "OSubContracts"
     if n == "unsubcontracts":
@@ -124,8 +126,17 @@ def gen_case(rng, contract_scripts):
     ops = []
     subscribed = []
     for _ in range(rng.range(6, 22)):
-        k = rng.weighted([("sub", 5), ("unsub", 3), ("rel", 12), ("contracts", 2), ("dump", 2), ("h160", 1)])
-        if k == "sub":
+        k = rng.weighted([("sub", 5), ("subaddr", 2), ("unsub", 3), ("rel", 12), ("contracts", 2), ("dump", 2), ("h160", 1)])
+        if k == "subaddr":
+            # the client helpers SubscribeAddress / SubscribeAddresses with a PKH or multi-PKH address
+            hs = []
+            for d in rng.shuffle(list(datas))[:rng.weighted([(1, 2), (2, 4), (3, 3)])]:
+                h = key(d)
+                if h not in hs:
+                    hs.append(h)
+            ops.append(["subaddress", hs, int(rng.chance(1, 2))])
+            subscribed += hs
+        elif k == "sub":
             ds = []
             for _i in range(rng.weighted([(1, 5), (2, 3), (3, 1)])):
                 d = rng.choice(datas)
